@@ -404,10 +404,12 @@ func (l *log) delete(offsets map[int64]struct{}) ([]Message, int64, error) {
 
 	wasWriter := false
 	var writerVersion message.Version
+	var writerLen int
 	l.writerMu.Lock()
 	if l.writer.reader == rdr {
 		wasWriter = true
 		writerVersion = l.writer.messages.Version()
+		writerLen = l.writer.index.Len()
 		if err := l.writer.Sync(); err != nil {
 			l.writerMu.Unlock()
 			return nil, 0, err
@@ -442,6 +444,17 @@ func (l *log) delete(offsets map[int64]struct{}) ([]Message, int64, error) {
 	}
 	rs, err := rdr.segment.Rewrite(offsets, l.params, mversion, iversion)
 	if err != nil {
+		if wasWriter && errors.Is(err, message.ErrCorrupted) {
+			// the writing segment is read without the writer lock, a publish that is
+			// appending to it at the same time can be seen half-written
+			l.writerMu.Lock()
+			changed := l.writer.reader != rdr || l.writer.index.Len() != writerLen
+			l.writerMu.Unlock()
+			if changed {
+				// same as when the rewrite notices the change: nothing is deleted
+				return nil, 0, nil
+			}
+		}
 		return nil, 0, err
 	}
 
